@@ -184,7 +184,7 @@ func (m Mounts) GetMountAndSubmounts(path string) []*MountType {
 func (m Mounts) GetMountSources(mnt *MountType) []string {
 	device := m.devices[mnt.st_dev]
 	out := make([]string, 0, len(device.roots) + 1)
-	if len(mnt.Source) > 0 {
+	if len(mnt.Source) > 0 && mnt.root == "/" {
 		out = append(out, mnt.Source)
 	} else {
 		root := mnt.root
